@@ -157,6 +157,6 @@ def run(ck, ctx):
                           "label error %s takes its span from Label::span()/SymbolData::span(key): %s" % (kind, lab), "%s:%s" % (b.file, t["line"]))
     ck.floor(rule, "AsmErr::new call sites reachable from assemble*", n, 14)
     span_shapes(ck, F)
-    ck.include("C23", ctx, "C26.5", {"C23.3"}, "SymbolData::span / Label::span normal forms")
+    ck.include("C23", ctx, "C26.5", {"C23.2", "C23.3"}, "label error spans are rebuilt from the stored src_start: where it is stored (first occurrence, label.span().start) and SymbolData::span / Label::span")
     ck.assume("spans stored in the AST come from the parser (token spans of the same source)")
     ck.assume("link errors carry spans of two different sources (documented TODO in the code); only the no-panic clause is claimed for them")
